@@ -170,7 +170,7 @@ pub fn gen_c08(seed: u64, thorough: bool) -> Plan {
         config,
         knobs: KnobsPlan { latency_us: *g.pick(&[0, 0, 200, 5000]), ..KnobsPlan::simple() },
         flows: vec![],
-        extra: serde_json::json!({ "faults": faults }),
+        extra: serde_json::json!({ "faults": faults, "cold_start": (seed / 7) % 3 == 1 }),
     }
 }
 
@@ -348,8 +348,11 @@ pub fn execute_c08(plan: &Plan) -> Outcome {
             Ok(m) => m,
             Err(e) => return (Some(e), None, None, (false, false), (false, false)),
         };
-        // the service works before any fault (otherwise it is not C08's business)
-        let before = canary(0).await;
+        // the service works before any fault (otherwise it is not C08's business) - except in one plan out of three, where
+        // the misbehaving flows are the very first thing the freshly started processes see (whatever a process sets up lazily
+        // on its first flow is then set up under the fault)
+        let cold = plan.extra["cold_start"].as_bool().unwrap_or(false);
+        let before = if cold { Ok(0) } else { canary(0).await };
         let mut held = Held { _conns: Vec::new(), _tasks: Vec::new() };
         for (i, f) in faults.iter().enumerate() {
             inject(i, f, &mut held).await;
@@ -377,7 +380,7 @@ pub fn execute_c08(plan: &Plan) -> Outcome {
         // other peers' stalled or failing handshakes are none of a fresh flow's business: it is served as promptly as before
         // (nothing in the catalogue gives the service a reason to make a well-behaved newcomer wait for tens of seconds)
         if let (Some(Ok(b)), Some(Ok(a))) = (&before, &after) {
-            if *a > *b + 15_000_000_000 {
+            if *a > *b + 15_000_000_000 && !plan.extra["cold_start"].as_bool().unwrap_or(false) {
                 v.push(Violation::new(prop, format!("{prop}/canary-delayed/{cell}/{class}"), format!("after faults {names:?}: a fresh flow was served only after {:.1} simulated s (before the faults: {:.3} s) - it had to wait for somebody else's connection", *a as f64 / 1e9, *b as f64 / 1e9)));
             }
         }
